@@ -228,5 +228,12 @@ theorem C10_src_after_loop :
 example : (Skel.reach MainLoopPaths.mRuns Gen.mainLoop MainLoopPaths.q0Runs).length = 5 ∧ Skel.size Gen.mainLoop > 400 :=
   MainLoopPaths.nonvacuous
 
+/-- **the loop is never left without an exit object**: on every execution of the main-loop body that ends in `break`, `exit_info`
+    is an ExitInformation — created on that path or tested `is not None` after the call that returned it — so the flag and
+    message `solve` reads from it exist (monitor `MainLoopPaths.mExit`) -/
+theorem C10_src_exit_object_on_break {tr : List String} {e : Skel.Ending} (hx : Skel.Exec Gen.mainLoop tr e) (he : e = .brk) :
+    MainLoopPaths.mExit.run false tr = true :=
+  MainLoopPaths.exit_trace hx he
+
 end C10
 end Dfols
